@@ -11,8 +11,8 @@ if [ "$kind" = harmless ]; then ids=$(cd $V/seeded && ls -d harmless-$glob 2>/de
 log=$V/.work/par_$kind.log; : > $log
 mk() { # universe k
   u=/tmp/u_$1; rm -rf $u; mkdir -p $u
-  git -C /repo worktree prune
-  git -C /repo worktree add -q --detach $u/repo HEAD || return 1
+  # worktree bookkeeping is shared by all universes: one at a time
+  flock /tmp/u_worktree.lock sh -c "git -C /repo worktree prune; git -C /repo worktree add -q --detach $u/repo HEAD" || return 1
   rsync -a --exclude .git --exclude .work --exclude replays $V/ $u/verif/
   mkdir -p $u/verif/.work $u/verif/replays
   sed -i "s|^REPO = \"/repo\"|REPO = \"$u/repo\"|" $u/verif/tools/runner.py
@@ -35,7 +35,7 @@ runshard() {
     fi
     git -C $u/repo checkout -q -- . ; git -C $u/repo clean -fdq
   done
-  git -C /repo worktree remove --force $u/repo; rm -rf $u
+  flock /tmp/u_worktree.lock git -C /repo worktree remove --force $u/repo; rm -rf $u
 }
 i=0; declare -A bucket
 for id in $ids; do b=$((i % shards)); bucket[$b]="${bucket[$b]} $id"; i=$((i+1)); done
